@@ -170,14 +170,110 @@ fn main() {
         // a query compiled in another thread is usable here (Send)
         let _ = sent.outputs.len();
     }
+    // Phase C/D: compile storm (more threads than cores on purpose: preempted compilations stay in flight)
+    let storm_threads: usize = argv.get(4).and_then(|s| s.parse().ok()).unwrap_or(threads * 2);
+    let (storm_bad, storm_done) = compile_storm(&schema, storm_threads, iterations * 2);
+    mismatches += storm_bad;
+    total += storm_done;
     println!(
-        "{{\"threads\": {threads}, \"iterations_per_thread\": {iterations}, \"cases\": {}, \"cold_start_threads\": {}, \"shared_iterations\": {total}, \"mismatches\": {mismatches}}}",
+        "{{\"threads\": {threads}, \"iterations_per_thread\": {iterations}, \"cases\": {}, \"cold_start_threads\": {}, \"shared_iterations\": {total}, \"storm_threads\": {storm_threads}, \"storm_compilations\": {storm_done}, \"storm_queries\": {}, \"mismatches\": {mismatches}}}",
         cases.len(),
-        cold.len()
+        cold.len(),
+        storm_queries().len()
     );
     if mismatches > 0 {
         std::process::exit(1);
     }
+}
+
+/// Deeply nested queries (4..=12 scopes of plain / @optional / @fold / @recurse edges with tags crossing
+/// scopes) and ill-formed ones: phase C compiles them from all threads at once, back to back, so that
+/// many compilations are in flight together (state shared between compilations - a global counter, a
+/// cache keyed too coarsely - shows up as a result that differs from the sequential compilation).
+fn storm_queries() -> Vec<String> {
+    let mut out = vec![];
+    for depth in [4usize, 6, 8, 10, 12] {
+        for style in 0..4usize {
+            let mut q = String::from("{ Number(min: 1, max: 3) { value @output @tag(name: \"root\") ");
+            for d in 0..depth {
+                let dir = match (style, d % 4) {
+                    (0, _) => "",
+                    (1, 1) => "@optional",
+                    (2, 0) | (2, 2) => "@fold",
+                    (3, 3) => "@recurse(depth: 2)",
+                    (1, 3) => "@fold",
+                    _ => "",
+                };
+                q.push_str(&format!("successor {dir} {{ v{d}: value @output @filter(op: \">=\", value: [\"%root\"]) "));
+            }
+            for _ in 0..depth {
+                q.push_str("} ");
+            }
+            q.push_str("} }");
+            out.push(q);
+        }
+    }
+    // ill-formed: the error must be the same one as in the sequential compilation
+    out.push("{ Number(max: 2) { value @output @tag(name: \"a\") name @tag(name: \"b\") } }".into());
+    out.push("{ Number(max: 2) { value @output value @output } }".into());
+    out.push("{ Number(max: 2) { nonexistent @output } }".into());
+    out.push("{ Number(max: 2) { value @filter(op: \"=\", value: [\"%undefined\"]) @output } }".into());
+    out
+}
+
+fn compile_outcome(schema: &Schema, q: &str) -> String {
+    match parse(schema, q) {
+        Ok(c) => format!("ok:{:?}", c.ir_query),
+        Err(e) => format!("err:{e:?}"),
+    }
+}
+
+/// phase C + D; returns (mismatches, compilations done)
+fn compile_storm(schema: &Arc<Schema>, threads: usize, rounds: usize) -> (usize, usize) {
+    let queries = Arc::new(storm_queries());
+    let reference: Arc<Vec<String>> = Arc::new(queries.iter().map(|q| compile_outcome(schema, q)).collect());
+    if std::env::var("C24_SHOW").is_ok() {
+        for (q, r) in queries.iter().zip(reference.iter()) {
+            eprintln!("{} <= {}", r.chars().take(60).collect::<String>(), q.chars().take(150).collect::<String>());
+        }
+    }
+    let ref_schema_dbg = Arc::new(format!("{:?}", Schema::parse(NUMBERS_SCHEMA).map(|_| ())));
+    let barrier = Arc::new(Barrier::new(threads));
+    let handles: Vec<_> = (0..threads)
+        .map(|t| {
+            let (schema, queries, reference, barrier, ref_schema_dbg) = (schema.clone(), queries.clone(), reference.clone(), barrier.clone(), ref_schema_dbg.clone());
+            std::thread::spawn(move || {
+                barrier.wait();
+                let (mut bad, mut done) = (0usize, 0usize);
+                for r in 0..rounds {
+                    let i = (t * 7 + r) % queries.len();
+                    let got = compile_outcome(&schema, &queries[i]);
+                    if got != reference[i] {
+                        if bad == 0 {
+                            eprintln!("MISMATCH concurrent compilation of storm query {i}: {}", got.chars().take(200).collect::<String>());
+                        }
+                        bad += 1;
+                    }
+                    done += 1;
+                    if r % 16 == 0 {
+                        // phase D: schema construction and type parsing race with the compilations
+                        let s = format!("{:?}", Schema::parse(NUMBERS_SCHEMA).map(|_| ()));
+                        if s != *ref_schema_dbg || Type::parse("[[Int!]]!").map(|t| t.to_string()).ok().as_deref() != Some("[[Int!]]!") {
+                            bad += 1;
+                        }
+                    }
+                }
+                (bad, done)
+            })
+        })
+        .collect();
+    let mut tot = (0usize, 0usize);
+    for h in handles {
+        let (b, d) = h.join().expect("storm thread panicked");
+        tot.0 += b;
+        tot.1 += d;
+    }
+    tot
 }
 
 fn compiled_in_thread(schema: &Schema, q: &str) -> Arc<IndexedQuery> {
